@@ -3,6 +3,8 @@ import RsslVerif.Lemmas.LayoutCollect
 import RsslVerif.Lemmas.LayoutFull
 import RsslVerif.Lemmas.LayoutFields
 import RsslVerif.Gen.LayoutSites
+import RsslVerif.Gen.LayoutPurity
+import RsslVerif.Lemmas.LayoutContext
 /-!
 # C19 — layout-consistency validation is sound
 
@@ -443,6 +445,171 @@ example :
   · exact .buffer _ (List.mem_singleton.2 rfl) "StructuredBuffer" (by decide) rfl rfl
 
 end collection
+
+/-! ## No state between two layout queries
+
+A struct definition that several checked types share (the same `StructId` as a member of two buffer element types,
+twice in one type, below an array, ...) is laid out again for every use.  The model has no place for a memory of
+earlier queries: `get`, `offsetsMatch`, `checkOne` are functions of the type (and the mode) alone.  That this is also
+true of the source is a fact about its text, re-read on every run (`Gen.LayoutPurity`); that the real compiler behaves
+like it is tested by the correspondence run on programs whose type table shares definitions (`$k` in `C19.prog`). -/
+section context
+open RsslVerif.Gen.LayoutPurity RsslVerif.Model.LayoutCollect RsslVerif.Lemmas.LayoutCollect
+  RsslVerif.Lemmas.LayoutContext
+
+/-- what a function of `layout_checker.rs` may take: the module (shared reference), a type id, a packing mode -/
+def pureParameterTypes : List String := ["&Module", "TypeId", "PackingMode"]
+
+/-- accessors of the module that only read it -/
+def readOnlyAccesses : List String :=
+  ["enum_registry.get_underlying_type_id", "function_registry.get_function_count", "function_registry.get_intrinsic_data",
+   "function_registry.get_template_instantiation_data", "get_type_location()", "global_registry", "struct_registry[]",
+   "type_registry.get_type_layer", "type_registry.remove_modifier", "type_registry.get_non_array_id",
+   "type_registry.extract_modifier"]
+
+/-- **The layout functions take no mutable state** (tie of `layout_is_context_free` to the source text).
+    `get_type_layout` is a function of (module, type id, packing mode), `offsets_match` and `is_dependent_type` of
+    (module, type id), `check_layout` of the module; apart from the diagnostic printer (whose `w` is the message
+    sink) no function of the file has a parameter of another type, none has a `&mut` parameter; the mutable locals of
+    the three layout functions are the accumulators of one call (`layout`, the vector width `x`, the two running
+    offsets) and `check_layout`'s are the two collection containers, the peeled global type and the two layouts under
+    comparison; closures occur in the printer only; the file mentions no `static`, cell, lock, map or other container
+    a cache could live in; it reads the module through read-only accessors only (the type registry keeps its layers
+    in a `RefCell`: `get_type_layer` is a plain read of it). -/
+theorem layout_functions_are_pure :
+    (functions.find? (·.1 == "get_type_layout")).map (·.2.2) =
+      some ([("module", "&Module"), ("ty", "TypeId"), ("mode", "PackingMode")], "Option<Layout>") ∧
+    (functions.find? (·.1 == "offsets_match")).map (·.2.2) =
+      some ([("module", "&Module"), ("ty", "TypeId")], "Option<bool>") ∧
+    (functions.find? (·.1 == "is_dependent_type")).map (·.2.2) =
+      some ([("module", "&Module"), ("ty", "TypeId")], "bool") ∧
+    (functions.find? (·.1 == "check_layout")).map (·.2.2) =
+      some ([("module", "&Module")], "Result<(),LayoutError>") ∧
+    (functions.all fun f => f.1 == "print" || (f.2.1 == "" && f.2.2.1.all fun p => pureParameterTypes.contains p.2)) = true ∧
+    (functions.filter (·.1 != "print")).length + 1 = functions.length ∧
+    mutableParameters = [("print", "w")] ∧
+    mutableLocals.lookup "get_type_layout" = some ["let mut layout", "pattern mut x"] ∧
+    mutableLocals.lookup "offsets_match" = some ["let (mut offset_hlsl, mut offset_metal)"] ∧
+    mutableLocals.lookup "is_dependent_type" = some [] ∧
+    mutableLocals.lookup "check_layout" =
+      some ["let mut layout_hlsl", "let mut layout_metal", "let mut ty", "let mut types_seen", "let mut types_to_check"] ∧
+    (functionsWithClosures.all (· == "print")) = true ∧
+    stateTokens = [] ∧
+    (moduleAccesses.all readOnlyAccesses.contains) = true ∧
+    (macros.all ["matches", "panic", "write", "assert", "unreachable"].contains) = true ∧
+    typeLayerIsARead = true := by
+  decide
+
+/-- **The layout of a type does not depend on what was laid out before it.**
+    (1) In the loop over `types_to_check` the type at any position gets the verdict of the loop body on that type
+    alone (`verdictAt`: `mismatch` with the two layouts of *this* type, `unknown`, a panic, or "go on"), whatever
+    types were checked (and accepted) before it; (2) a list is accepted iff every type of it passes on its own;
+    (3) so neither the order of the checked types, nor checking one twice, nor leaving some out can turn a rejection
+    into an acceptance; (4) inside a struct every member type is laid out by the same function of (mode, type) and
+    the running layout, wherever the member occurs and whatever the members before it were (the equation of
+    `getMembers`), and likewise in `offsets_match`. -/
+theorem layout_is_context_free :
+    (∀ (pre post : List Ty) (t : Ty), (∀ u ∈ pre, checkOne u = .ok none) →
+      checkAll (pre ++ t :: post) = (verdictAt pre.length (checkOne t)).getD (checkFrom (pre.length + 1) post)) ∧
+    (∀ ts : List Ty, checkAll ts = .ok ↔ ∀ t ∈ ts, checkOne t = .ok none) ∧
+    (∀ ts ts' : List Ty, (∀ t ∈ ts', t ∈ ts) → checkAll ts = .ok → checkAll ts' = .ok) ∧
+    (∀ (m : Mode) (t : Ty) (ts : Tys) (acc : Layout),
+      getMembers m (.cons t ts) acc =
+        match get m t with
+        | .error e => .error e
+        | .ok ml =>
+          match runLay (structMemberOps m) ⟨acc, 0, ml, 0, 0⟩ with
+          | .error e => .error e
+          | .ok acc' => getMembers m ts acc') ∧
+    (∀ (t : Ty) (ts : Tys) (ch cm : Nat),
+      offsetsMembers (.cons t ts) ch cm =
+        match runOff (get .hlsl t) (get .metal t) (offsetsMatch t) 0 offsetsMemberOps ⟨ch, cm, ⟨0, 0⟩, ⟨0, 0⟩⟩ with
+        | .ok (.ret b) => .ok b
+        | .ok (.next s) => offsetsMembers ts s.ch s.cm
+        | .error e => .error e) := by
+  refine ⟨?_, ?_, ?_, ?_, ?_⟩
+  · intro pre post t h
+    unfold checkAll
+    rw [checkFrom_append pre (t :: post) 0 h, checkFrom_cons]
+    simp
+  · intro ts; exact checkFrom_ok_iff 0 ts
+  · intro ts ts' hs h
+    exact (checkFrom_ok_iff 0 ts').2 fun t ht => (checkFrom_ok_iff 0 ts).1 h t (hs t ht)
+  · intro m t ts acc
+    rw [getMembers]
+    cases get m t with
+    | error e => rfl
+    | ok ml => cases runLay (structMemberOps m) ⟨acc, 0, ml, 0, 0⟩ <;> rfl
+  · intro t ts ch cm
+    rw [offsetsMembers]
+    cases runOff (get .hlsl t) (get .metal t) (offsetsMatch t) 0 offsetsMemberOps ⟨ch, cm, ⟨0, 0⟩, ⟨0, 0⟩⟩ with
+    | error e => rfl
+    | ok fl => cases fl <;> rfl
+
+/-- **Module level: acceptance does not depend on the order of the declarations.**  If `check_layout` accepts a
+    module (with consistent type ids), it accepts every module made of (some of) the same globals and functions in
+    any order and multiplicity: which use of a type comes first decides where a diagnostic points, never whether
+    there is one. -/
+theorem check_layout_order_free (m m' : Module) (hc : Consistent m)
+    (hg : ∀ g ∈ m'.globals, g ∈ m.globals) (hf : ∀ f ∈ m'.fns, f ∈ m.fns) (h : checkLayout m = .ok) :
+    checkLayout m' = .ok := by
+  unfold checkLayout at h
+  split at h
+  · rename_i l hl
+    have hbad := (collect_ok_iff m).1 ⟨l, hl⟩
+    obtain ⟨l', hl'⟩ := (collect_ok_iff m').2 fun f hf' => hbad f (hf f hf')
+    unfold checkLayout
+    rw [hl']
+    simp only
+    refine (checkFrom_ok_iff 0 _).2 ?_
+    intro t ht
+    obtain ⟨e', he', rfl⟩ := List.mem_map.1 ht
+    -- the entry stems from a global / function of m', i.e. of m, whose type id m collected as well
+    have hm' : Matched m e'.ref := by
+      rcases collect_origin m' l' hl' e' he' with ⟨g, hg', hh⟩ | ⟨f, hf', hh⟩
+      · exact Or.inl ⟨g, hg g hg', hh⟩
+      · exact Or.inr ⟨f, hf f hf', hh⟩
+    obtain ⟨e, he, hid⟩ : ∃ e ∈ l, e.ref.id = e'.ref.id := by
+      rcases hm' with ⟨g, hg', hh⟩ | ⟨f, hf', hh⟩
+      · exact collect_global m l hl g hg' _ hh
+      · exact collect_fn m l hl f hf' _ hh
+    have hty : e.ref.ty = e'.ref.ty := hc e.ref e'.ref (collect_origin m l hl e he) hm' hid
+    rw [← hty]
+    exact (checkFrom_ok_iff 0 _).1 h _ (List.mem_map.2 ⟨e, he, rfl⟩)
+  · cases h
+  · cases h
+
+private def sE : Ty := .struct .nil
+private def sA : Ty := .struct (Tys.ofList [.scalar .Float16, sE, .scalar .Float32])
+private def sB : Ty := .struct (Tys.ofList [.scalar .UInt32, sE, .scalar .UInt32])
+
+/-- non-vacuity (the shape of seeded mutant C19-3): `struct E {}; struct A { half h; E e; float f; };
+    struct B { uint x; E e; uint y; };` — `A` is accepted (the Metal byte of `E` sits in padding both rule sets
+    have), `B` is rejected with 8 vs 12 bytes after `A` just as on its own and as before `A`; both uses of `E` in
+    one struct: 16 vs 20; the module with the two buffers in either order is rejected at `B`'s buffer. -/
+example :
+    checkAll [sA] = .ok ∧ checkAll [sB] = .mismatch 0 ⟨8, 4⟩ ⟨12, 4⟩ ∧
+    checkAll [sA, sB] = .mismatch 1 ⟨8, 4⟩ ⟨12, 4⟩ ∧ checkAll [sB, sA] = .mismatch 0 ⟨8, 4⟩ ⟨12, 4⟩ ∧
+    checkAll [.struct (Tys.ofList [.scalar .Float16, sE, .scalar .Float32, .scalar .UInt32, sE, .scalar .UInt32])]
+      = .mismatch 0 ⟨16, 4⟩ ⟨20, 4⟩ ∧
+    checkLayout ⟨[⟨.modifier (.object "StructuredBuffer" (some ⟨1, sA⟩)), "G0"⟩,
+                  ⟨.modifier (.object "StructuredBuffer" (some ⟨2, sB⟩)), "G1"⟩], []⟩ = .mismatch 1 ⟨8, 4⟩ ⟨12, 4⟩ ∧
+    checkLayout ⟨[⟨.modifier (.object "StructuredBuffer" (some ⟨2, sB⟩)), "G0"⟩,
+                  ⟨.modifier (.object "StructuredBuffer" (some ⟨1, sA⟩)), "G1"⟩], []⟩ = .mismatch 0 ⟨8, 4⟩ ⟨12, 4⟩ ∧
+    wf sA = true ∧ wf sB = true := by
+  decide
+
+/-- non-vacuity of `check_layout_order_free`: an accepted module with two uses, and the same uses in the other
+    order -/
+example :
+    checkLayout ⟨[⟨.modifier (.object "StructuredBuffer" (some ⟨1, sA⟩)), "G0"⟩],
+      [⟨some "ByteAddressBufferLoadT", some [.type ⟨3, sG⟩]⟩]⟩ = .ok ∧
+    checkLayout ⟨[⟨.modifier (.object "StructuredBuffer" (some ⟨1, sA⟩)), "G0"⟩,
+                  ⟨.modifier (.object "StructuredBuffer" (some ⟨1, sA⟩)), "G1"⟩],
+      [⟨some "ByteAddressBufferLoadT", some [.type ⟨3, sG⟩]⟩, ⟨some "ByteAddressBufferLoadT", some [.type ⟨3, sG⟩]⟩]⟩ = .ok := by
+  decide
+
+end context
 
 /-! ## The full type universe: `bool`, matrices (all scalars, 1–4 rows and columns, `row_major` /
     `column_major`), next to everything of the grid, nested to any depth -/
